@@ -21,12 +21,13 @@ VARIABLES
     call,      \* the hook call in progress: [type, expected (Seq of names), pos, aborted, open] or NoCall
     running,   \* name of the hook process currently running, or "none"
     pending,   \* the file write being bracketed: [path, isnew, stage] or NoWrite
+    owed,      \* challenge hook calls of this attempt that have not been followed by their clean call yet
     bad
-vars == <<conf, present, call, running, pending, bad>>
+vars == <<conf, present, call, running, pending, owed, bad>>
 
 Chk(label, F) == IF F THEN {} ELSE {label}
 Labels == {"C10_Order", "C10_ByType", "C10_OneAtATime", "C10_AbortUnlessAllowed", "C10_Env", "C10_Vars",
-           "C10_FileBracket", "C10_StdinStdout"}
+           "C10_FileBracket", "C10_StdinStdout", "C10_CleanAfterValidation"}
 
 NoCall == [type |-> "none", expected |-> <<>>, pos |-> 0, aborted |-> FALSE, open |-> FALSE]
 NoWrite == [path |-> "none", isnew |-> FALSE, stage |-> "none"]
@@ -63,6 +64,10 @@ BracketOnCall(type) ==
              pending.stage = "written" /\ (type = "file-post-create") = pending.isnew
       [] OTHER -> TRUE
 
+OwedCap == 8          \* saturation (the code cleans up after each authorization: 1 in practice); the model-checking run uses 0
+MCOwedCap == 0
+ChallengeTypes == {"challenge-http-01", "challenge-dns-01", "challenge-tls-alpn-01"}
+CleanTypes == {"challenge-http-01-clean", "challenge-dns-01-clean", "challenge-tls-alpn-01-clean"}
 BeginCall(type, all) ==
     /\ bad' = Chk("C10_ByType", CallDone)
          \cup Chk("C10_FileBracket", BracketOnCall(type))
@@ -70,13 +75,15 @@ BeginCall(type, all) ==
     /\ pending' = IF type \in {"file-pre-create", "file-pre-edit"}
                   THEN [path |-> "unknown", isnew |-> (type = "file-pre-create"), stage |-> "pre"]
                   ELSE IF type \in {"file-post-create", "file-post-edit"} THEN NoWrite ELSE pending
+    /\ owed' = IF type \in ChallengeTypes THEN (IF owed < OwedCap THEN owed + 1 ELSE owed)
+               ELSE IF type \in CleanTypes /\ owed > 0 THEN owed - 1 ELSE owed
     /\ UNCHANGED <<conf, present, running>>
 
 (* a hook process started / ended *)
 HookStart(h) ==
     /\ bad' = Chk("C10_OneAtATime", running = "none")
     /\ running' = h
-    /\ UNCHANGED <<conf, present, call, pending>>
+    /\ UNCHANGED <<conf, present, call, pending, owed>>
 
 (* envs: sequence of [p, g, c, i, value]: a variable defined at the levels p(rocess), g(lobal), c(ertificate),  *)
 (* i(dentifier) arrived with `value' (the tag of a level, or "absent").  role: "chal" | "other".                 *)
@@ -96,20 +103,23 @@ HookEnd(h, exit, envs, role, obs, want) ==
     /\ call' = [call EXCEPT !.pos = IF h = exp THEN call.pos + 1 ELSE call.pos,
                             !.aborted = call.aborted \/ failed]
     /\ running' = "none"
-    /\ UNCHANGED <<conf, present, pending>>
+    /\ UNCHANGED <<conf, present, pending, owed>>
 
 (* storage::write_file wrote `path' *)
 FileWritten(path) ==
     /\ bad' = Chk("C10_FileBracket", pending.stage = "pre" /\ pending.isnew = (path \notin present))
     /\ pending' = [path |-> path, isnew |-> (path \notin present), stage |-> "written"]
     /\ present' = present \cup {path}
-    /\ UNCHANGED <<conf, call, running>>
+    /\ UNCHANGED <<conf, call, running, owed>>
 
 (* end of the run (or of an attempt): the last call must be complete, a written file must have got its post hooks *)
-EndRun ==
+(* ok: the attempt that ends here was a success, i.e. every challenge was validated: each must have had its clean call *)
+EndRunWith(ok) ==
     /\ bad' = Chk("C10_ByType", CallDone)
-    /\ call' = NoCall /\ pending' = NoWrite
+                \cup Chk("C10_CleanAfterValidation", ok => owed = 0)
+    /\ call' = NoCall /\ pending' = NoWrite /\ owed' = 0
     /\ UNCHANGED <<conf, present, running>>
+EndRun == EndRunWith(FALSE)
 
 -----------------------------------------------------------------------------
 (* Model checking: the family of configurations the driver instantiates.  Three hooks with a profile each    *)
@@ -133,7 +143,7 @@ MCInit ==
          /\ conf = [defs |-> [i \in 1..3 |-> [name |-> CASE i = 1 -> "h1" [] i = 2 -> "h2" [] OTHER -> "h3",
                                                types |-> Profiles[p[i]], allow |-> a[i]]],
                     groups |-> MCGroups, lists |-> << [owner |-> "cert", names |-> Shapes[s]] >>]
-    /\ present = {} /\ call = NoCall /\ running = "none" /\ pending = NoWrite /\ bad = {}
+    /\ present = {} /\ call = NoCall /\ running = "none" /\ pending = NoWrite /\ owed = 0 /\ bad = {}
 
 ExitOf(h) == mc.exit[CASE h = "h1" -> 1 [] h = "h2" -> 2 [] OTHER -> 3]
 
@@ -160,7 +170,7 @@ MCFinish == /\ call.open /\ running = "none" /\ (call.aborted \/ call.pos = Len(
             /\ bad' = Chk("C10_ByType", CallDone)
             /\ call' = NoCall
             /\ pending' = IF call.aborted THEN NoWrite ELSE pending
-            /\ UNCHANGED <<conf, present, running, mc>>
+            /\ UNCHANGED <<conf, present, running, owed, mc>>
 MCNext == MCBegin \/ MCRun \/ MCEndHook \/ MCFinish \/ MCWrite
 MCSpec == MCInit /\ [][MCNext]_mvars
 
